@@ -389,7 +389,8 @@ impl Authorizer {
 
     fn authorize_inner(&mut self, limits: AuthorizerLimits) -> Result<usize, error::Token> {
         let start = Instant::now();
-        let time_limit = start + limits.max_time;
+        // a duration too large to be added to the current instant means "no time limit"
+        let time_limit = start.checked_add(limits.max_time);
 
         let mut errors = vec![];
         let mut policy_result: Option<Result<usize, usize>> = None;
@@ -444,7 +445,7 @@ impl Authorizer {
                 };
 
                 let now = Instant::now();
-                if now >= time_limit {
+                if time_limit.map(|limit| now >= limit).unwrap_or(false) {
                     return Err(error::Token::RunLimit(error::RunLimit::Timeout));
                 }
 
@@ -509,7 +510,7 @@ impl Authorizer {
                     };
 
                     let now = Instant::now();
-                    if now >= time_limit {
+                    if time_limit.map(|limit| now >= limit).unwrap_or(false) {
                         return Err(error::Token::RunLimit(error::RunLimit::Timeout));
                     }
 
@@ -553,7 +554,7 @@ impl Authorizer {
                 )?;
 
                 let now = Instant::now();
-                if now >= time_limit {
+                if time_limit.map(|limit| now >= limit).unwrap_or(false) {
                     return Err(error::Token::RunLimit(error::RunLimit::Timeout));
                 }
 
@@ -608,7 +609,7 @@ impl Authorizer {
                         };
 
                         let now = Instant::now();
-                        if now >= time_limit {
+                        if time_limit.map(|limit| now >= limit).unwrap_or(false) {
                             return Err(error::Token::RunLimit(error::RunLimit::Timeout));
                         }
 
